@@ -25,7 +25,7 @@ ALL_REGIONS = collections.OrderedDict(
 )
 CN_REGIONS = ["e1", "i1", "e2", "i2", "e3"]
 CHRLEN = 12000
-OFFS = {"hg19": (3001, 6001, 9001), "hg38": (3501, 6301, 9201)}   # 1-based starts: gene, pseudogene, neutral
+OFFS = {"hg19": (3001, 6001, 9001), "hg38": (3201, 6151, 9101)}   # 1-based starts: gene, pseudogene, neutral
 NEUTRAL_LEN = 400
 REFSEQ_ONLY = (260, 262)     # RefSeq bases absent from the genome (alignment "I"), inside i1
 GENOME_ONLY_AFTER = 459      # 3 genome-only bases follow this RefSeq base (alignment "D"), inside i2
